@@ -30,7 +30,11 @@ pub fn run<C: NatCtx>(v: &mut Env<C>) {
     if v.small && p != big(23) && p != big(59) {
         return;
     }
-    let sizes: Vec<usize> = if v.small { if quick { vec![1, 4, 50] } else { vec![1, 2, 17, 120, 500] } } else if quick { vec![3] } else { vec![2, 10, 40] };
+    // sizes straddle the usual parallel block sizes (32 .. 1024): a split / chunk / min_len boundary inside
+    // the list, with a remainder
+    let sizes: Vec<usize> = if v.small {
+        if quick { if p == big(23) { vec![1, 4, 50, 65, 129, 300] } else { vec![1, 33, 257, 520] } } else { vec![1, 2, 17, 33, 65, 120, 129, 257, 500, 513, 1025, 2049] }
+    } else if quick { vec![3] } else { vec![2, 10, 40, 70] };
     let mut out_lines: Vec<String> = vec![];
     for nn in sizes {
         let sk = v.rnd_exp();
